@@ -8,6 +8,7 @@ mod util;
 mod c24;
 mod c25;
 mod c23;
+mod c13;
 
 use util::Ctx;
 
@@ -33,12 +34,14 @@ fn main() {
         }
     }
     // silence panic messages of caught panics (they are reported as `trap` results)
-    std::panic::set_hook(Box::new(|_| {}));
+    if std::env::var("VH_PANIC").is_err() { std::panic::set_hook(Box::new(|_| {})); }
     let mut ctx = Ctx::new(&out, &tier, seed, replay);
     match family.as_str() {
         "c24" => c24::run(&mut ctx),
         "c25" => c25::run(&mut ctx),
         "c23" => c23::run(&mut ctx),
+        "c13" => c13::run_c13(&mut ctx),
+        "c14" => c13::run_c14(&mut ctx),
         other => { eprintln!("unknown family {other}"); std::process::exit(2); }
     }
     ctx.finish();
